@@ -445,6 +445,7 @@ Proof.
         destruct (existsb _ acc); [discriminate|]. destruct (existsb _ acc); [discriminate|]. apply IHl. }
       assert (Hdr : forall rs acc, discover_roots tree acc rs <> Err 0%N).
       { induction rs as [|r rs IHr]; intros acc; cbn; [discriminate|].
+        destruct (nameless (discover_root tree r)); [discriminate|].
         destruct (add_all acc (discover_root tree r)) as [a|e|e] eqn:Ea; cbn; [apply IHr| |discriminate].
         intros H; inversion H; subst. eapply Haa; eauto. }
       destruct (discover_roots tree [] roots) as [l|e|e] eqn:El; cbn; try discriminate.
@@ -455,6 +456,7 @@ Proof.
         destruct (existsb _ acc); [discriminate|]. destruct (existsb _ acc); [discriminate|]. apply IHl. }
       assert (Hdr : forall rs acc w0, discover_roots tree acc rs <> Panic w0).
       { induction rs as [|r rs IHr]; intros acc w0; cbn; [discriminate|].
+        destruct (nameless (discover_root tree r)); [discriminate|].
         destruct (add_all acc (discover_root tree r)) as [a|e'|e'] eqn:Ea; cbn; [apply IHr|discriminate|].
         intros H; inversion H; subst. eapply Haa; eauto. }
       destruct (discover_roots tree [] roots) as [l|e'|e'] eqn:El; cbn; try discriminate.
